@@ -5,22 +5,42 @@ handing out generous pilots, no constraints).  A subclass records a snapshot aft
 top-level `plugin`/`unplug` call and around `post_charging_update`; `random.choice` is wrapped in
 the harness process so that the draws (as indices into the free list, in the code's own order)
 feed the Lean model.  The oracle is the property on the implementation's snapshots.
+
+Networks are built by hand (`register_evse` in the listed order) AND through the package's own factories
+(`simple_acn`, `office001_acn`, `caltech_acn`, `jpl_acn` with `network_type=<recording StochasticNetwork>`);
+the schedulers are the harness' generous one and the package's real algorithms (uncontrolled, round robin,
+sorted FCFS / EDF / LLF under a tight aggregate cap).
+
+"Reproducible under a fixed random seed" is checked (a) inside the harness process (same seed, no patching,
+run again) and (b) ACROSS INTERPRETER PROCESSES: a case that carries `"hashseeds": [h1, h2, ...]` is also run
+in persistent worker processes started with `PYTHONHASHSEED=h_i` (acnportal imported from ACN_REPO there too);
+the whole observation (registration order, every snapshot, event history, counters, pilot / charging-rate
+matrices, delivered energy) must be identical in all of them and in the harness process.
 """
 from __future__ import annotations
 
+import atexit
 import contextlib
+import hashlib
 import itertools
+import json
+import os
 import random as _random
+import select
+import subprocess
+import sys
 from datetime import datetime
 
 from acnportal.acnsim import Simulator, EventQueue
 from acnportal.acnsim.events import PluginEvent
 from acnportal.acnsim.models import EV, EVSE, Battery
+from acnportal.acnsim.network import sites as _sites
+from acnportal import algorithms as _algos
 from acnportal.algorithms import BaseAlgorithm
 from acnportal.contrib.acnsim.network.stochastic_network import StochasticNetwork
 
 from core import impl as I
-from core.common import f2b, b2f, close
+from core.common import f2b, b2f, close, HARNESS, REPO
 
 ID = "C19"
 LEAN_MODULES = ["AcnProofs.C19"]
@@ -33,22 +53,38 @@ REQUIRED_THEOREMS = [
     "Acn.C19.eventCore_history_wellFormed", "Acn.C19.end_to_end", "Acn.C19.end_to_end_properties",
     "Acn.C19.end_to_end_ledger_partial",
 ]
-BUDGET = {"quick": 2500, "thorough": 15000, "search": 12000}
+BUDGET = {"quick": 2000, "thorough": 15000, "search": 12000}
 TRUSTED = ["heapq: in the history-level model the order among equal keys is taken from the implementation's own "
            "event_history; in the COMPOSED model (runGP heapQ stochasticNet) the order is computed by sim-core's "
            "transcription of CPython's array heap and compared with the implementation",
            "random.choice(seq) returns an element of seq (its index is the model's input)",
            "OrderedDict insertion order / popitem(last=False) / move_to_end; dict order of _EVSEs",
-           "EV.fully_charged is an input of the model (read from the implementation each period)"]
+           "EV.fully_charged is an input of the model (read from the implementation each period)",
+           "PYTHONHASHSEED: independence of the interpreter's string hashing is EXPLORED (2 worker processes with "
+           "pinned, different hash seeds + the harness process per cross-process case; 3 in the thorough tier), not "
+           "proved; the model takes the registration order of a factory-built network from the implementation"]
 ASSUMPTIONS = ["histories are well formed: distinct session ids, arrival < departure, arrival >= 0; each session is "
                "plugged once (at arrival) and unplugged once (at departure, with its current station_id)",
-               "two EV objects sharing a session id are outside the model (the waiting queue is keyed by session id)"]
-RULE = ("per case 1-4 stations, 1-12 sessions over a short horizon (heavy overlap, many equal arrival/departure "
+               "two EV objects sharing a session id are outside the model (the waiting queue is keyed by session id)",
+               "reproducibility across processes is claimed for the same case, the same random.seed (or choice script) "
+               "and the same package version; station ids handed to simple_acn are distinct"]
+RULE = ("hand-built networks: per case 1-4 stations, 1-12 sessions over a short horizon (heavy overlap, many equal arrival/departure "
         "times), tiny/medium/huge energy requests, early departure on/off, a scheduler giving 32 A / alternating / "
         "0 A, initial station ids valid/foreign/None, a random.seed or a scripted choice sequence; thorough adds the "
         "exhaustive scope <=2 stations x <=4 sessions x all choice scripts over horizon 4; incoming station ids are "
         "registered EVSE ids in ~60% of the cases (as acndata_events produces); plus a malformed stream of raw "
         "plugin/unplug/post calls in any order (state and error class compared after every call). "
+        "FACTORY-BUILT networks (n/8 of the quick stream, n/12 thorough): simple_acn(ids, evse_type BASIC / AeroVironment / "
+        "ClipperCreek, voltage 208/240, aggregate cap 150/20/10/5 kW, network_type=<recording StochasticNetwork>) with 1-8 "
+        "shuffled ids in eight naming styles, office001_acn (8 stations), and caltech_acn + jpl_acn (> 50 stations, a "
+        "crowd of stations-4..stations+10 sessions; one each per quick run, 8 each thorough); schedulers: the harness' "
+        "32 A / alternating / 0 A and the package's UncontrolledCharging, RoundRobin, sorted FCFS / EDF / LLF (tight cap, "
+        "BASIC EVSEs). CROSS-PROCESS: every factory case and one hand-built case in twelve carry `hashseeds` (2 of "
+        "{101,202,303} quick, 3 of {101,202,303,404} thorough): the same case with the same random.seed / script is run "
+        "in persistent worker interpreters started with PYTHONHASHSEED=h (acnportal imported from ACN_REPO, checked) and "
+        "the whole observation - registration order, constraint order, every snapshot, event history, counters, pilot "
+        "and charging-rate matrices, delivered energy - must be identical in all of them and in the harness process "
+        "(oracle kind not_reproducible_across_processes; the replay is the case incl. its hash seeds). "
         "non-trivial = some session had to wait (more simultaneous sessions than stations); distinct by case hash")
 
 START = datetime(2020, 1, 1)
@@ -59,8 +95,44 @@ KWH = [0.0005, 0.3, 0.5, 0.8, 1.4, 60.0]
 
 # ------------------------------------------------------------------ generation
 
-def _case(stations, sessions, early, seed=None, script=None, sched="gen"):
-    return {"stations": stations, "sessions": sessions, "early": early, "seed": seed, "script": script, "sched": sched}
+def _case(stations, sessions, early, seed=None, script=None, sched="gen", factory=None, hashseeds=None):
+    c = {"stations": stations, "sessions": sessions, "early": early, "seed": seed, "script": script, "sched": sched}
+    if factory is not None:
+        c["factory"] = factory
+    if hashseeds:
+        c["hashseeds"] = list(hashseeds)
+    return c
+
+
+# PYTHONHASHSEED values of the worker processes (a small pool: one persistent process per value)
+HASHSEEDS = [101, 202, 303, 404]
+
+
+def _pick_hashseeds(rng, tier):
+    if tier == "thorough":
+        return sorted(rng.sample(HASHSEEDS, 3))
+    return sorted(rng.sample(HASHSEEDS[:3], 2))
+
+
+def _gen_sessions(rng, n, H, stations, kwhs=None):
+    sessions = []
+    # incoming EV.station_id: what acndata_events produces is a REGISTERED EVSE id (the space the
+    # driver used in the data set); also foreign ids, None, ids that look like session ids
+    st0_mode = rng.choice(["registered", "registered", "mixed", "mixed", "same"])
+    for k in range(n):
+        a = rng.randint(0, H - 1) if rng.random() < 0.8 else rng.choice([0, 0, 1, H - 1])
+        d = rng.randint(a + 1, H) if rng.random() < 0.7 else min(H, a + rng.choice([1, 1, 2]))
+        if not stations:
+            st0 = rng.choice([None, "zz", f"s{k}"])
+        elif st0_mode == "registered":
+            st0 = rng.choice(stations)
+        elif st0_mode == "same":
+            st0 = stations[0]
+        else:
+            st0 = rng.choice([stations[0], rng.choice(stations), "zz", None, f"s{k}"])
+        sessions.append({"id": f"s{k}", "arrival": a, "departure": d, "kwh": rng.choice(kwhs or KWH), "st0": st0})
+    rng.shuffle(sessions)
+    return sessions
 
 
 def _gen_case(rng, tier):
@@ -70,26 +142,95 @@ def _gen_case(rng, tier):
     n = rng.randint(1, 12)
     r = rng.random()
     H = rng.choice([3, 4, 6, 9]) if r < 0.8 else rng.choice([12, 20])
-    sessions = []
-    # incoming EV.station_id: what acndata_events produces is a REGISTERED EVSE id (the space the
-    # driver used in the data set); also foreign ids, None, ids that look like session ids
-    st0_mode = rng.choice(["registered", "registered", "mixed", "mixed", "same"])
-    for k in range(n):
-        a = rng.randint(0, H - 1) if rng.random() < 0.8 else rng.choice([0, 0, 1, H - 1])
-        d = rng.randint(a + 1, H) if rng.random() < 0.7 else min(H, a + rng.choice([1, 1, 2]))
-        if st0_mode == "registered":
-            st0 = rng.choice(stations)
-        elif st0_mode == "same":
-            st0 = stations[0]
-        else:
-            st0 = rng.choice([stations[0], rng.choice(stations), "zz", None, f"s{k}"])
-        sessions.append({"id": f"s{k}", "arrival": a, "departure": d, "kwh": rng.choice(KWH), "st0": st0})
-    rng.shuffle(sessions)
+    sessions = _gen_sessions(rng, n, H, stations)
     early = rng.random() < 0.7
     sched = rng.choice(["gen", "gen", "gen", "alt", "zero"])
+    # one hand-built case in twelve is also run in other interpreter processes
+    hs = _pick_hashseeds(rng, tier) if rng.random() < 1 / 12 else None
     if rng.random() < 0.2:
-        return _case(stations, sessions, early, script=[rng.randint(0, 3) for _ in range(n)], sched=sched)
-    return _case(stations, sessions, early, seed=rng.randint(0, 10 ** 6), sched=sched)
+        return _case(stations, sessions, early, script=[rng.randint(0, 3) for _ in range(n)], sched=sched, hashseeds=hs)
+    return _case(stations, sessions, early, seed=rng.randint(0, 10 ** 6), sched=sched, hashseeds=hs)
+
+
+# ---- networks built by the package's own factories -------------------------------------------
+
+_ID_STYLES = [
+    lambda k: f"CA-{301 + k}", lambda k: "ABCDEFGHIJKL"[k], lambda k: f"st-{k}", lambda k: f"{k + 1:02d}",
+    lambda k: f"PS-{k:03d}", lambda k: f"Garage 2 / spot {k}", lambda k: f"s{k}", lambda k: ("x" * (k + 1)),
+]
+_SITE_IDS = {}
+
+
+def _site_ids(kind):
+    """station ids of a fixed site (asked from the real factory, only to pick plausible INCOMING station ids
+    for the sessions; nothing of the check depends on this list being right)"""
+    if kind not in _SITE_IDS:
+        try:
+            _SITE_IDS[kind] = list(getattr(_sites, kind)(network_type=StochasticNetwork).station_ids)
+        except Exception:  # noqa
+            _SITE_IDS[kind] = []
+    return _SITE_IDS[kind]
+
+
+REAL_ALGOS = ["unc", "rr", "fcfs", "edf", "llf"]
+
+
+def _crowd(rng, sessions, H, p):
+    """most sessions arrive at once and stay for a while (more sessions than stations at the same time)"""
+    for s in sessions:
+        if rng.random() < p:
+            s["arrival"] = rng.choice([0, 0, 0, 1])
+            s["departure"] = max(s["departure"], s["arrival"] + 1 + rng.randint(0, H - 2))
+
+
+def _gen_factory(rng, tier, big=False):
+    """the network comes from simple_acn / office001_acn (small) or caltech_acn / jpl_acn (big, > 50 stations)"""
+    volt = rng.choice([208.0, 208.0, 208.0, 240.0])
+    if big:
+        kind = big if isinstance(big, str) else rng.choice(["caltech_acn", "jpl_acn"])
+        basic = rng.random() < 0.5
+        fac = {"kind": kind, "basic": basic, "voltage": volt}
+        ids = _site_ids(kind)
+        ns = len(ids) or 54
+        n = max(1, ns + rng.randint(-4, 10))
+        H = rng.choice([3, 4, 6])
+        sessions = _gen_sessions(rng, n, H, ids, kwhs=[0.3, 0.5, 1.4, 60.0, 60.0])
+        _crowd(rng, sessions, H, 0.75)
+        stations = None
+    elif rng.random() < 0.25:
+        basic = rng.random() < 0.5
+        fac = {"kind": "office001_acn", "basic": basic, "voltage": volt, "cap": rng.choice([50, 50, 10, 5])}
+        ids = _site_ids("office001_acn")
+        n = rng.randint(1, 16) if rng.random() < 0.4 else rng.randint(9, 16)
+        H = rng.choice([3, 4, 6, 9])
+        sessions = _gen_sessions(rng, n, H, ids)
+        if rng.random() < 0.6:
+            _crowd(rng, sessions, H, 0.6)
+        stations = None
+    else:
+        ns = rng.choice([1, 2, 2, 3, 3, 4, 4, 5, 6, 6, 8])
+        style = rng.choice(_ID_STYLES)
+        ids = [style(k) for k in range(ns)]
+        rng.shuffle(ids)
+        etype = rng.choice(["BASIC", "BASIC", "BASIC", "AeroVironment", "ClipperCreek"])
+        basic = etype == "BASIC"
+        fac = {"kind": "simple_acn", "ids": ids, "evse_type": etype, "voltage": volt,
+               "cap": rng.choice([150, 150, 20, 10, 5])}
+        n = rng.randint(1, ns + 7) if rng.random() < 0.5 else rng.randint(ns + 1, ns + 7)
+        H = rng.choice([3, 4, 6, 9]) if rng.random() < 0.85 else 12
+        sessions = _gen_sessions(rng, n, H, ids)
+        if rng.random() < 0.5:
+            _crowd(rng, sessions, H, 0.6)
+        stations = list(ids)
+    early = rng.random() < 0.7
+    # the package's sorted algorithms hand continuous rates to the EVSE: BASIC EVSEs only
+    scheds = ["gen", "gen", "gen", "alt", "zero", "unc", "rr"] + (["fcfs", "edf", "llf"] if basic else [])
+    sched = rng.choice(scheds)
+    hs = _pick_hashseeds(rng, tier)
+    if rng.random() < 0.15:
+        return _case(stations, sessions, early, script=[rng.randint(0, 7) for _ in range(len(sessions))], sched=sched,
+                     factory=fac, hashseeds=hs)
+    return _case(stations, sessions, early, seed=rng.randint(0, 10 ** 6), sched=sched, factory=fac, hashseeds=hs)
 
 
 def _exhaustive():
@@ -112,6 +253,12 @@ def _exhaustive():
 
 def corpus():
     S = lambda i, a, d, k=60.0, st0=None: {"id": i, "arrival": a, "departure": d, "kwh": k, "st0": st0}  # noqa: E731
+    ca6 = ["CA-301", "CA-302", "CA-303", "CA-304", "CA-305", "CA-306"]
+    crowd = [S(f"s{i:02d}", a, d, k, st0) for i, (a, d, k, st0) in enumerate([
+        (0, 6, 8.0, "CA-303"), (0, 3, 0.5, "CA-301"), (0, 8, 9.0, None), (1, 5, 0.3, "CA-306"), (1, 7, 6.0, "CA-302"),
+        (1, 4, 1.4, "CA-305"), (1, 6, 0.5, "CA-304"), (2, 3, 5.0, "CA-301"), (2, 9, 7.0, "zz"), (2, 5, 0.3, "CA-303"),
+        (2, 9, 3.0, None), (3, 7, 0.5, "CA-302"), (4, 9, 4.5, "CA-306"), (5, 9, 0.3, "CA-301"), (6, 9, 6.0, "CA-305"),
+        (7, 9, 0.5, "CA-304")])]
     return [
         # swap-in and same-period unplug of the swapped EV; departure while waiting; stale unplug after early departure
         _case(["A"], [S("a", 0, 2), S("b", 0, 2), S("c", 1, 3)], False, seed=1),
@@ -121,6 +268,19 @@ def corpus():
         _case(["s0", "s1"], [S("s0", 0, 2, 0.3, "s1"), S("s1", 0, 4, 60.0, "zz"), S("s2", 0, 3, 0.3, None), S("s3", 2, 4, 0.3, "s0")], True, script=[1, 0, 1, 1]),
         # long idle gap, then a crowd
         _case(["A", "B", "C"], [S("a", 0, 1), S("b", 5, 7, 0.3), S("c", 5, 6, 0.3), S("d", 5, 9), S("e", 5, 6), S("f", 6, 9, 0.3)], True, seed=4),
+        # networks from the package's factories, compared across interpreter processes (PYTHONHASHSEED differs):
+        # six stations / sixteen sessions, up to ten at once (the registration order decides who sits where)
+        _case(ca6, crowd, False, seed=2024, sched="unc", hashseeds=[101, 202],
+              factory={"kind": "simple_acn", "ids": ca6, "evse_type": "BASIC", "voltage": 208.0, "cap": 150}),
+        _case(ca6, crowd, True, seed=2024, sched="gen", hashseeds=[101, 303],
+              factory={"kind": "simple_acn", "ids": ca6, "evse_type": "AeroVironment", "voltage": 208.0, "cap": 150}),
+        # tight aggregate cap, the package's own sorted algorithms decide who charges
+        _case(ca6[:4], crowd[:9], True, seed=7, sched="rr", hashseeds=[202, 303],
+              factory={"kind": "simple_acn", "ids": ca6[:4], "evse_type": "BASIC", "voltage": 208.0, "cap": 10}),
+        _case(None, crowd[:12], True, seed=11, sched="llf", hashseeds=[101, 202],
+              factory={"kind": "office001_acn", "basic": True, "voltage": 208.0, "cap": 10}),
+        # the same hand-built network in other processes
+        _case(["st-2", "st-1", "st-0"], crowd[:8], True, seed=5, hashseeds=[101, 202]),
     ]
 
 
@@ -144,13 +304,18 @@ def _gen_ops(rng):
 def generate(rng, n, tier):
     out = [_gen_case(rng, tier) for _ in range(n)]
     out.extend(_gen_ops(rng) for _ in range(max(50, n // 5)))
+    # networks from simple_acn / office001_acn, each also run in other interpreter processes; a few caltech / jpl
+    out.extend(_gen_factory(rng, tier) for _ in range(max(60, n // 8 if tier != "thorough" else n // 12)))
+    out.extend(_gen_factory(rng, tier, big=kind) for _ in range(1 if tier != "thorough" else 8)
+               for kind in ("caltech_acn", "jpl_acn"))
     if tier == "thorough":
         out.extend(_exhaustive())
     return out
 
 
 def search(rng, n):
-    return [_gen_case(rng, "search") for _ in range(n)]
+    return ([_gen_case(rng, "search") for _ in range(n)] + [_gen_factory(rng, "search") for _ in range(n // 20)]
+            + [_gen_factory(rng, "search", big=True) for _ in range(4)])
 
 
 # ------------------------------------------------------------------ implementation
@@ -223,10 +388,51 @@ def _make_net(case, log):
             log["trace"].append({"op": "post", "full": full, "before": before,
                                  "early_calls": log["early_calls"], "snap": snap(self)})
 
-    net = Rec(early_departure=case["early"])
-    for sid in case["stations"]:
-        net.register_evse(EVSE(sid, max_rate=32), VOLT, 0)
+    fac = case.get("factory")
+    if fac is None:
+        net = Rec(early_departure=case["early"])
+        for sid in case["stations"]:
+            net.register_evse(EVSE(sid, max_rate=32), VOLT, 0)
+        return net, snap
+    # the package's own factories call `network_type()` and register the EVSEs themselves
+    kind = fac["kind"]
+    if kind == "simple_acn":
+        net = _sites.simple_acn(list(fac["ids"]), evse_type=fac["evse_type"], voltage=fac["voltage"],
+                                aggregate_cap=fac["cap"], network_type=Rec)
+    elif kind == "office001_acn":
+        net = _sites.office001_acn(basic_evse=fac["basic"], voltage=fac["voltage"], transformer_cap=fac["cap"],
+                                   network_type=Rec)
+    elif kind == "caltech_acn":
+        net = _sites.caltech_acn(basic_evse=fac["basic"], voltage=fac["voltage"], network_type=Rec)
+    elif kind == "jpl_acn":
+        net = _sites.jpl_acn(basic_evse=fac["basic"], voltage=fac["voltage"], network_type=Rec)
+    else:
+        raise ValueError(f"unknown factory {kind}")
+    net.early_departure = case["early"]
     return net, snap
+
+
+def _volt(case):
+    return float(case["factory"]["voltage"]) if case.get("factory") else VOLT
+
+
+def _make_sched(mode):
+    if mode in ("gen", "alt", "zero"):
+        return _Sched(mode)
+    if mode == "unc":
+        alg = _algos.UncontrolledCharging()
+    elif mode == "rr":
+        alg = _algos.RoundRobin(_algos.first_come_first_served, continuous_inc=1)
+    elif mode == "fcfs":
+        alg = _algos.SortedSchedulingAlgo(_algos.first_come_first_served)
+    elif mode == "edf":
+        alg = _algos.SortedSchedulingAlgo(_algos.earliest_deadline_first)
+    elif mode == "llf":
+        alg = _algos.SortedSchedulingAlgo(_algos.least_laxity_first)
+    else:
+        raise ValueError(f"unknown scheduler {mode}")
+    alg.max_recompute = 1
+    return alg
 
 
 @contextlib.contextmanager
@@ -262,7 +468,7 @@ def _run_once(case, patch=True):
         log["evs"][s["id"]] = ev
         events.append(PluginEvent(s["arrival"], ev))
     net, snap = _make_net(case, log)
-    sim = Simulator(net, _Sched(case.get("sched", "gen")), EventQueue(events), START, period=PERIOD, verbose=False)
+    sim = Simulator(net, _make_sched(case.get("sched", "gen")), EventQueue(events), START, period=PERIOD, verbose=False)
     if case.get("seed") is not None:
         _random.seed(case["seed"])
     err = None
@@ -281,6 +487,12 @@ def _run_once(case, patch=True):
         "final": snap(net),
         "iterations": int(sim.iteration),
         "delivered": {k: float(v.energy_delivered) for k, v in log["evs"].items()},
+        # the whole simulation, for the comparison across processes: registration order, constraint order,
+        # pilot and charging-rate matrices (rows in registration order)
+        "station_ids": list(net.station_ids),
+        "constraints": [str(x) for x in net.constraint_index],
+        "pilots": [[float(x) for x in row[:int(sim.iteration)]] for row in sim.pilot_signals],
+        "rates": [[float(x) for x in row[:int(sim.iteration)]] for row in sim.charging_rates],
     }
 
 
@@ -317,18 +529,187 @@ def _run_ops(case):
     return {"steps": steps, "choices": log["choices"], "choice_sizes": log["choice_sizes"]}
 
 
+# ---- the same run in other interpreter processes (one persistent worker per PYTHONHASHSEED) ----
+
+_WORKERS = {}
+_XKEYS = ("err", "station_ids", "constraints", "trace", "events", "ev_history", "final", "iterations", "delivered",
+          "pilots", "rates")
+
+
+def _xview(o):
+    """what must be identical in every process (JSON-normalised)"""
+    return json.loads(json.dumps({k: o.get(k) for k in _XKEYS}))
+
+
+def _digest(v):
+    return hashlib.sha256(json.dumps(v, sort_keys=True).encode()).hexdigest()[:16]
+
+
+def _worker_main():
+    import acnportal
+    where = os.path.dirname(os.path.abspath(acnportal.__file__))
+    for line in sys.stdin:
+        line = line.strip()
+        if not line:
+            continue
+        try:
+            case = json.loads(line)
+            o = _run_once(case, patch=case.get("script") is not None)
+            ans = {"ok": _xview(o), "acnportal": where, "hashseed": os.environ.get("PYTHONHASHSEED")}
+        except Exception as e:  # noqa: BLE001
+            ans = {"exc": f"{type(e).__name__}: {e}"}
+        sys.stdout.write("@@" + json.dumps(ans) + "\n")
+        sys.stdout.flush()
+
+
+def _worker(seed, fresh=False):
+    w = _WORKERS.get(seed)
+    if w is not None and w.poll() is None and not fresh:
+        return w
+    if w is not None:
+        try:
+            w.kill()
+        except Exception:  # noqa
+            pass
+    env = dict(os.environ)
+    env["PYTHONHASHSEED"] = str(seed)
+    env["ACN_REPO"] = REPO
+    code = ("import sys; sys.path.insert(0, %r); sys.path.insert(0, %r); "
+            "from props import C19; C19._worker_main()") % (HARNESS, REPO)
+    w = subprocess.Popen([sys.executable, "-W", "ignore", "-c", code], stdin=subprocess.PIPE, stdout=subprocess.PIPE,
+                         stderr=subprocess.DEVNULL, text=True, env=env, cwd=HARNESS)
+    _WORKERS[seed] = w
+    return w
+
+
+@atexit.register
+def _stop_workers():
+    for w in _WORKERS.values():
+        try:
+            w.stdin.close()
+            w.terminate()
+        except Exception:  # noqa
+            pass
+
+
+def _send(w, line):
+    try:
+        w.stdin.write(line)
+        w.stdin.flush()
+        return True
+    except Exception:  # noqa
+        return False
+
+
+def _recv(w, timeout=180):
+    while True:
+        try:
+            ready, _, _ = select.select([w.stdout], [], [], timeout)
+        except Exception:  # noqa
+            ready = [w.stdout]
+        if not ready:
+            return None
+        ans = w.stdout.readline()
+        if not ans:
+            return None
+        if ans.startswith("@@"):
+            return json.loads(ans[2:])
+
+
+def _first_difference(a, b):
+    for k in _XKEYS:
+        x, y = a.get(k), b.get(k)
+        if x == y:
+            continue
+        if k == "trace":
+            for i, (p, q) in enumerate(zip(x, y)):
+                if p != q:
+                    keys = [kk for kk in p if p.get(kk) != q.get(kk)]
+                    sn = "snap" if "snap" in keys else keys[0]
+                    return f"trace step {i} ({p.get('op')} {p.get('sess', '')}) field {sn}: {json.dumps(p.get(sn))[:400]}  /  {json.dumps(q.get(sn))[:400]}"
+            return f"trace length {len(x)} / {len(y)}"
+        msg = f"{k}: {json.dumps(x)[:400]}  /  {json.dumps(y)[:400]}"
+        # who sits where (keyed by station, so that a mere re-ordering of the rows is told apart)
+        for i, (p, q) in enumerate(zip(a.get("trace") or [], b.get("trace") or [])):
+            pa, qa = dict(map(tuple, p["snap"]["occ"])), dict(map(tuple, q["snap"]["occ"]))
+            if pa != qa or p["snap"]["waiting"] != q["snap"]["waiting"]:
+                msg += (f"; first assignment difference at trace step {i} ({p.get('op')} {p.get('sess', '')}): "
+                        f"{json.dumps(pa, sort_keys=True)[:300]} waiting {p['snap']['waiting']}  /  "
+                        f"{json.dumps(qa, sort_keys=True)[:300]} waiting {q['snap']['waiting']}")
+                break
+        return msg
+    return None
+
+
+def _cross_process_start(case):
+    """hand `case` to the worker processes of case["hashseeds"] (they work while the harness process runs it too)"""
+    seeds = list(case["hashseeds"])
+    c = {k: v for k, v in case.items() if k != "hashseeds"}
+    line = json.dumps(c) + "\n"
+    ws = {h: _worker(h) for h in seeds}
+    sent = {h: _send(w, line) for h, w in ws.items()}
+    return seeds, line, ws, sent
+
+
+def _cross_process(case, ref, started=None):
+    """run `case` in the worker processes of case["hashseeds"]; `ref` is the harness process' own run"""
+    seeds, line, ws, sent = started or _cross_process_start(case)
+    ans = {}
+    for h in seeds:
+        a = _recv(ws[h]) if sent[h] else None
+        if a is None:        # died or hung: one retry in a fresh process
+            w = _worker(h, fresh=True)
+            a = _recv(w) if _send(w, line) else None
+        ans[h] = a if a is not None else {"exc": "worker process died"}
+    here = os.environ.get("PYTHONHASHSEED") or "random"
+    views = [(f"harness process (PYTHONHASHSEED={here})", _xview(ref))]
+    runs = {}
+    for h in seeds:
+        a = ans[h]
+        if "exc" in a:
+            runs[str(h)] = {"exc": a["exc"]}
+            continue
+        runs[str(h)] = {"digest": _digest(a["ok"]), "acnportal": a["acnportal"], "hashseed": a["hashseed"]}
+        views.append((f"PYTHONHASHSEED={h}", a["ok"]))
+    # first differing pair, workers (pinned hash seeds) first so that the replay names two concrete seeds
+    diff = None
+    order = views[1:] + views[:1]
+    for i in range(len(order)):
+        for j in range(i + 1, len(order)):
+            if diff is None and order[i][1] != order[j][1]:
+                diff = {"a": order[i][0], "b": order[j][0], "first": _first_difference(order[i][1], order[j][1])}
+    return {"seeds": seeds, "ref_digest": _digest(views[0][1]), "runs": runs, "diff": diff,
+            "expected_acnportal": os.path.join(os.path.abspath(REPO), "acnportal")}
+
+
 def run_impl(case):
     if "ops" in case:
         return _run_ops(case)
+    started = _cross_process_start(case) if case.get("hashseeds") else None
+    try:
+        return _run_impl(case, started)
+    except BaseException:
+        if started is not None:      # keep the request / answer protocol of the workers in step
+            for h in started[0]:
+                if started[3][h]:
+                    _recv(started[2][h])
+        raise
+
+
+def _run_impl(case, started):
     obs = _run_once(case, patch=True)
     if case.get("seed") is not None and case.get("script") is None:
         # reproducibility: the same seed without any patching gives the same run
         again = _run_once(case, patch=False)
-        obs["repro"] = (again["trace"] == obs["trace"] and again["final"] == obs["final"]
-                        and again["events"] == obs["events"])
+        obs["repro"] = all(again[k] == obs[k] for k in _XKEYS)
+        ref = again
     else:
         again = _run_once(case, patch=True)
         obs["repro"] = again == {k: v for k, v in obs.items() if k != "repro"}
+        ref = obs
+    if case.get("hashseeds"):
+        # ... and so does the same seed / script in other interpreter processes (different string hashing)
+        obs["xproc"] = _cross_process(case, ref, started)
     return obs
 
 
@@ -338,6 +719,13 @@ def _horizon(case):
     return max(s["departure"] for s in case["sessions"]) + 1
 
 
+def _stations(case, obs):
+    """registration order of the network (for factory-built networks: as observed on the implementation)"""
+    if obs is not None and obs.get("station_ids") is not None:
+        return list(obs["station_ids"])
+    return list(case["stations"] or [])
+
+
 def model_request(case, obs):
     if "ops" in case:
         full = [e["id"] for e in case["evs"] if e["full"]]
@@ -345,18 +733,23 @@ def model_request(case, obs):
                 "evs": [{"id": e["id"], "st0": e["st0"]} for e in case["evs"]], "choices": obs["choices"],
                 "ops": [o if o[0] != "post" else ["post", full] for o in case["ops"]]}
     fulls = [st["full"] for st in obs["trace"] if st["op"] == "post"]
-    return {
-        "stations": case["stations"], "early": case["early"], "periods": _horizon(case),
+    req = {
+        # a factory-built network enters the model with the registration order observed on the implementation
+        # (hand-built: the oracle also checks that it is the order of the register_evse calls)
+        "stations": _stations(case, obs), "early": case["early"], "periods": _horizon(case),
         "sessions": [{"id": s["id"], "st0": s["st0"], "arrival": s["arrival"], "departure": s["departure"]}
                      for s in case["sessions"]],
         "events": [{"ts": t, "kind": k, "sess": x} for t, k, x in obs["events"]],
         "full": fulls, "choices": obs["choices"],
-        # composed model with fully_charged COMPUTED from an energy ledger (what the harness' scheduler and
-        # the ideal battery do: 32 A * 208 V for one period to every plugged-in EV that is not yet full)
-        "ledger": {"req": [{"id": s["id"], "kwh": f2b(I.num(s["kwh"]))} for s in case["sessions"]],
-                   "per_period": f2b((32.0 * VOLT) / 1000 * (PERIOD / 60)), "eps": f2b(1e-3),
-                   "mode": case.get("sched", "gen")},
     }
+    if case.get("sched", "gen") in ("gen", "alt", "zero"):
+        # composed model with fully_charged COMPUTED from an energy ledger (what the harness' scheduler and
+        # the ideal battery do: 32 A * voltage for one period to every plugged-in EV that is not yet full);
+        # with the package's real algorithms fully_charged is an input of the model (TRUSTED)
+        req["ledger"] = {"req": [{"id": s["id"], "kwh": f2b(I.num(s["kwh"]))} for s in case["sessions"]],
+                         "per_period": f2b((32.0 * _volt(case)) / 1000 * (PERIOD / 60)), "eps": f2b(1e-3),
+                         "mode": case.get("sched", "gen")}
+    return req
 
 
 def _cmp_snap(a, m, where, out, draws=None, blank_none=False):
@@ -500,7 +893,16 @@ def oracle(case, obs):
     arrived, departed, early_gone = set(), set(), set()
     ever_on = set()
     exp_never = exp_swaps = exp_early = 0
-    prev = {"occ": [[st, None] for st in case["stations"]], "waiting": []}
+    stations = _stations(case, obs)
+    # the network the factory / the register_evse calls built: every station once, none lost or invented
+    if len(set(stations)) != len(stations):
+        bad("station_registered_twice", f"station_ids={stations}")
+    fac = case.get("factory")
+    if fac is None and stations != list(case["stations"]):
+        bad("registration_order_changed", f"register_evse calls {case['stations']} but station_ids={stations}")
+    if fac is not None and fac["kind"] == "simple_acn" and sorted(stations) != sorted(set(fac["ids"])):
+        bad("factory_stations_differ", f"simple_acn({fac['ids']}) built station_ids={stations}")
+    prev = {"occ": [[st, None] for st in stations], "waiting": []}
     for i, st in enumerate(obs["trace"]):
         snap = st["snap"]
         where = f"step {i} {st['op']} {st.get('sess', '')}"
@@ -582,6 +984,24 @@ def oracle(case, obs):
         bad("choice_out_of_range", f"{obs['choices']} {obs['choice_sizes']}")
     if not obs["repro"]:
         bad("not_reproducible", "the same seed / script gave a different run")
+    # ... in every interpreter process: same case, same random.seed / script, different PYTHONHASHSEED
+    xp = obs.get("xproc")
+    if case.get("hashseeds") and xp is None:
+        bad("cross_process_run_missing", f"hashseeds={case['hashseeds']} but no cross-process observation")
+    if xp is not None:
+        what = f"random.seed({case.get('seed')})" if case.get("script") is None else f"choice script {case['script']}"
+        for h, r in xp["runs"].items():
+            if "exc" in r:
+                bad("cross_process_worker_failed", f"PYTHONHASHSEED={h}: {r['exc']}")
+            elif os.path.abspath(r["acnportal"]) != os.path.abspath(xp["expected_acnportal"]):
+                bad("cross_process_worker_wrong_tree", f"PYTHONHASHSEED={h} imported {r['acnportal']}, expected {xp['expected_acnportal']}")
+            elif str(r["hashseed"]) != str(h):
+                bad("cross_process_worker_failed", f"worker for PYTHONHASHSEED={h} runs with {r['hashseed']}")
+        digests = {xp["ref_digest"]} | {r["digest"] for r in xp["runs"].values() if "digest" in r}
+        if len(digests) > 1 or xp["diff"] is not None:
+            d = xp["diff"] or {}
+            bad("not_reproducible_across_processes",
+                f"{what}, same case: {d.get('a')} and {d.get('b')} give different runs; first difference: {d.get('first')}")
     return fails
 
 
@@ -602,11 +1022,25 @@ def features(case, obs):
     if "ops" in case:
         return sorted({"stream:ops"} | {"ops_err:" + st["err"] for st in obs["steps"] if st["err"]}
                       | {"ops_waiting" for st in obs["steps"] if st["snap"]["waiting"]})
-    reg = {s["id"] for s in case["sessions"] if s["st0"] in case["stations"]}
-    out = [f"stations:{len(case['stations'])}", f"sessions:{min(len(case['sessions']), 12)}",
+    stations = _stations(case, obs)
+    reg = {s["id"] for s in case["sessions"] if s["st0"] in stations}
+    out = [f"stations:{len(stations) if len(stations) <= 8 else '>8'}", f"sessions:{min(len(case['sessions']), 12)}",
            f"early:{case['early']}", "choices:" + ("seed" if case.get("script") is None else "script"),
            "sched:" + case.get("sched", "gen")]
-    if _max_overlap(case) > len(case["stations"]):
+    fac = case.get("factory")
+    out.append("network:" + (fac["kind"] if fac else "hand_built"))
+    if fac:
+        out.append("evse:" + (fac.get("evse_type") or ("BASIC" if fac.get("basic") else "site_types")))
+        if fac.get("cap") in (5, 10, 20):
+            out.append("tight_cap")
+    xp = obs.get("xproc")
+    if xp is not None:
+        out.append(f"cross_process:{len(xp['runs'])}_workers")
+        if len(stations) >= 2 and any(n > 1 for n in obs["choice_sizes"]):
+            out.append("cross_process:choice_among>=2")
+    if any(len({x for x in row}) > 2 for row in obs.get("rates", [])):
+        out.append("rates_vary")
+    if _max_overlap(case) > len(stations):
         out.append("more_sessions_than_stations")
     fin = obs["final"]
     if fin["never_charged"]:
@@ -642,10 +1076,42 @@ def features(case, obs):
     return sorted(set(out))
 
 
+def _pinned_pair(case):
+    """the cross-process failure shows between two worker processes with PINNED hash seeds (replayable)"""
+    obs = run_impl(case)
+    d = (obs.get("xproc") or {}).get("diff") or {}
+    return (any(f["kind"] == "not_reproducible_across_processes" for f in oracle(case, obs))
+            and str(d.get("a", "")).startswith("PYTHONHASHSEED=") and str(d.get("b", "")).startswith("PYTHONHASHSEED="))
+
+
 def shrink(case, kind):
     """drop sessions while the same oracle failure kind persists"""
     if "ops" in case:
         return case
+    if kind == "not_reproducible_across_processes":
+        # keep a replay that names two pinned hash seeds (the harness process' own seed is random):
+        # widen to the whole pool if necessary, then drop sessions while two pinned processes still differ
+        cur = case
+        if not _pinned_pair(cur):
+            wide = dict(cur)
+            wide["hashseeds"] = list(HASHSEEDS)
+            if not _pinned_pair(wide):
+                return case
+            cur = wide
+        changed = True
+        while changed and len(cur["sessions"]) > 1:
+            changed = False
+            for i in range(len(cur["sessions"])):
+                cand = dict(cur)
+                cand["sessions"] = cur["sessions"][:i] + cur["sessions"][i + 1:]
+                try:
+                    if _pinned_pair(cand):
+                        cur = cand
+                        changed = True
+                        break
+                except Exception:  # noqa
+                    pass
+        return cur
     cur = case
     changed = True
     while changed and len(cur["sessions"]) > 1:
